@@ -31,6 +31,14 @@ def run_history(job):
                 eff = None if cfg is None else [getattr(cfg, n) for n in Configs.config_names]
                 text = oneliner.convert_code_string(progs[act[2]], configs=cfg)
                 out.append({"eff": eff, "text": canon_ol(text)})
+            elif k == "fail":
+                # a conversion the converter refuses: the caller catches the error and carries on
+                cfg = None if act[1] is None else objs[act[1]]
+                try:
+                    oneliner.convert_code_string(job["failing"][act[2]], configs=cfg)
+                    out.append("converted")
+                except Exception as e:
+                    out.append("raised:" + type(e).__name__)
             elif k == "drop":
                 # the caller forgets an options object: its memory (and id()) may be reused by the next one
                 objs[act[1]] = None
